@@ -123,7 +123,34 @@ def _collection(rng, client, kinds):
     return coll, entries
 
 
+def _lookalike_cases():
+    """IPv6 clients that differ from the IPv4-mapped form of an allowed IPv4 address in ONE place of the 96-bit
+    prefix (one byte of the 80 zero bits set, one of the two ff bytes changed), and the usual embeddings that are not
+    the mapped form (compatible, translated, 6to4): none of them is the IPv4 address (deterministic, every seed)"""
+    import socket as _s
+    for v4 in ("192.168.0.7", "10.12.34.56", "0.0.0.1", "255.255.255.255"):
+        b4 = _s.inet_pton(_s.AF_INET, v4)
+        prefixes = [bytes(10) + b"\xff\xff"]
+        for i in range(10):
+            for val in (1, 0x80):
+                pre = bytearray(bytes(10) + b"\xff\xff")
+                pre[i] = val
+                prefixes.append(bytes(pre))
+        for tail in (b"\xff\xfe", b"\xfe\xff", b"\x00\xff", b"\xff\x00", b"\x00\x00"):
+            prefixes.append(bytes(10) + tail)
+        prefixes += [bytes(8) + b"\xff\xff\x00\x00", bytes.fromhex("0064ff9b") + bytes(8),
+                     bytes.fromhex("20010db8") + bytes(6) + b"\xff\xff", bytes.fromhex("fe80") + bytes(8) + b"\xff\xff"]
+        clients = [K.v6_text(pre + b4, style=st) for pre in prefixes for st in (0, 1)]
+        clients.append(_s.inet_ntop(_s.AF_INET6, bytes.fromhex("2002") + b4 + bytes(10)))
+        for entries in ([K.S(v4)], [K.S(v4 + "/32")], [K.S(".".join(v4.split(".")[:3]) + ".0/24")],
+                        [K.S("::ffff:" + v4)], [K.S("::ffff:" + v4 + "/128")], [K.S("::ffff:0.0.0.0/96")]):
+            for client in clients:
+                yield {"kind": "contains", "coll": "list", "entries": entries, "client": client, "allow_mask": True,
+                       "_meta": {"client": "lookalike"}}
+
+
 def _contains_cases(rng, tier, mult):
+    yield from _lookalike_cases()
     n = (1100 if tier == "quick" else 30000) * mult
     for _ in range(n):
         client, cls = K.rand_client(rng)
